@@ -412,7 +412,7 @@ impl Check for C03 {
         ]
     }
     fn components(&self) -> Value {
-        json!({"real": ["Connection::listen", "Listener::listen / handle (listener mode)", "FixedLocalizationAdapter (behind a recorder)", "configuration packets codec (Transfer, Disconnect, Store Cookie)"], "stub": ["transport", "client", "discovery/filter/strategy/auth services"]})
+        json!({"real": ["Connection::listen", "Listener::listen / handle (listener mode)", "FixedLocalizationAdapter (behind a recorder)", "OptionFilterAdapter and the Vec<T> filter chain of passage-adapters (around one or two scripted filters)", "configuration packets codec (Transfer, Disconnect, Store Cookie)"], "stub": ["transport", "client", "discovery/filter/strategy/auth services"]})
     }
     fn count(&self, tier: Tier) -> u64 {
         match tier {
